@@ -194,11 +194,21 @@ def d21():
     return ("in-place step left a degenerate region: " + "; ".join(out)) if out else None
 
 
+def d22():
+    mesh = df.Mesh(p1=(0, 0, 0), p2=(4, 3, 2), n=(4, 3, 2))
+    f = df.Field(mesh, nvdim=3, value=(1, 2, 3), valid=lambda p: p[0] < 2)
+    out = []
+    for name, g in (("np.float64(2)*f", np.float64(2) * f), ("np.sin(f)", np.sin(f)), ("ndarray*f", np.array([1.0, 2.0, 3.0]) * f)):
+        if not np.array_equal(g.valid, f.valid):
+            out.append(name)
+    return ("validity dropped (all True) by " + ", ".join(out)) if out else None
+
+
 ALL = {
     "D1": ("C13", d1), "D2": ("C13", d2), "D3": ("C12", d3), "D4": ("C12", d4),
     "D5": ("C08", d5), "D6": ("C08", d6), "D7": ("C08", d7), "D8": ("C03", d8),
     "D9": ("C03", d9), "D11": ("C02", d11), "D12": ("C10", d12), "D13": ("C10", d13),
-    "D14": ("C09", d14), "D15": ("C09", d15), "D16": ("C11", d16), "D20": ("C19", d20), "D21": ("C13", d21),
+    "D14": ("C09", d14), "D15": ("C09", d15), "D16": ("C11", d16), "D20": ("C19", d20), "D21": ("C13", d21), "D22": ("C08", d22),
 }
 
 
